@@ -199,12 +199,16 @@ func (r *recorder) add(fn string, args ...interface{}) {
 }
 
 // methods of *Host (a.M(..)) and of Sub (a.Sub.M(..) / a.PSub.M(..))
-func (h *Host) Mark(i int64)           { h.rec.add("Mark", i) }
-func (h *Host) Id64(x int64) int64     { h.rec.add("Id64", x); return x }
-func (h *Host) IdU8(x uint8) uint8     { h.rec.add("IdU8", x); return x }
+func (h *Host) Mark(i int64)            { h.rec.add("Mark", i) }
+func (h *Host) Id64(x int64) int64      { h.rec.add("Id64", x); return x }
+func (h *Host) IdU8(x uint8) uint8      { h.rec.add("IdU8", x); return x }
 func (h *Host) IdF64(x float64) float64 { h.rec.add("IdF64", x); return x }
-func (h *Host) Boom()                  { panic("Host.Boom") }
-func (s *Sub) GetN(k int32) int32      { s.rec.add("GetN", k); return k }
+func (h *Host) Boom()                   { panic("Host.Boom") }
+func (s *Sub) GetN(k int32) int32       { s.rec.add("GetN", k); return k }
+
+// value-receiver methods: in the method set of the struct AND of the pointer to it (at different indexes)
+func (h Host) Echo(x int64) int64 { h.rec.add("Echo", x); return x }
+func (s Sub) EchoN(k int32) int32 { s.rec.add("EchoN", k); return k }
 
 // the function catalogue, injected by name
 func catalogue(rec *recorder) map[string]interface{} {
@@ -239,21 +243,21 @@ func catalogue(rec *recorder) map[string]interface{} {
 }
 
 type injDesc struct {
-	Name   string             `json:"name"`
-	Kind   string             `json:"kind"` // val ptr struct structv map pmap seq pseq arr parr func nilptr
-	Sty    string             `json:"sty,omitempty"`
-	V      *tval              `json:"v,omitempty"`
-	Fields map[string]tval    `json:"fields,omitempty"` // scalar fields of Host
-	Sub    map[string]tval    `json:"sub,omitempty"`    // fields of Host.Sub
-	PSub   map[string]tval    `json:"psub,omitempty"`   // fields of *Host.PSub (nil if absent)
-	KT     string             `json:"kt,omitempty"`
-	ET     string             `json:"et,omitempty"`
-	Keys   []tval             `json:"keys,omitempty"`
-	Elems  []tval             `json:"elems,omitempty"`
-	M      map[string]string  `json:"m,omitempty"`  // Host.M
-	SL     []string           `json:"sl,omitempty"` // Host.SL
-	AR     []string           `json:"ar,omitempty"` // Host.AR
-	Fn     string             `json:"fn,omitempty"`
+	Name   string            `json:"name"`
+	Kind   string            `json:"kind"` // val ptr struct structv map pmap seq pseq arr parr func nilptr
+	Sty    string            `json:"sty,omitempty"`
+	V      *tval             `json:"v,omitempty"`
+	Fields map[string]tval   `json:"fields,omitempty"` // scalar fields of Host
+	Sub    map[string]tval   `json:"sub,omitempty"`    // fields of Host.Sub
+	PSub   map[string]tval   `json:"psub,omitempty"`   // fields of *Host.PSub (nil if absent)
+	KT     string            `json:"kt,omitempty"`
+	ET     string            `json:"et,omitempty"`
+	Keys   []tval            `json:"keys,omitempty"`
+	Elems  []tval            `json:"elems,omitempty"`
+	M      map[string]string `json:"m,omitempty"`  // Host.M
+	SL     []string          `json:"sl,omitempty"` // Host.SL
+	AR     []string          `json:"ar,omitempty"` // Host.AR
+	Fn     string            `json:"fn,omitempty"`
 }
 
 func setFields(dst reflect.Value, fields map[string]tval) error {
@@ -557,13 +561,14 @@ func dumpNode(v reflect.Value, sb *strings.Builder) {
 }
 
 type lCase struct {
-	ID     int       `json:"id"`
-	Text   string    `json:"text"`
-	Rule   string    `json:"rule"` // name of the rule to report on (the text may hold several)
-	Inject []injDesc `json:"inject"`
-	Tree   bool      `json:"tree"`
-	Twice  bool      `json:"twice"` // execute the rule set twice on the same builder/engine (C15)
-	Hold   string    `json:"hold"`  // Hold("<name>") blocks until the adversary releases it (C18)
+	ID       int       `json:"id"`
+	Text     string    `json:"text"`
+	Rule     string    `json:"rule"` // name of the rule to report on (the text may hold several)
+	Inject   []injDesc `json:"inject"`
+	Tree     bool      `json:"tree"`
+	Twice    bool      `json:"twice"`    // execute the rule set twice on the same builder/engine (C15)
+	Reinject bool      `json:"reinject"` // then inject FRESH objects under the same names into the same data context and execute again (C03)
+	Hold     string    `json:"hold"`     // Hold("<name>") blocks until the adversary releases it (C18)
 }
 
 type lObs struct {
@@ -697,6 +702,23 @@ func runLangCase(c *lCase) lObs {
 	if c.Twice {
 		second := lObs{ID: c.ID, Cites: [][2]int{}, Results: map[string]tval{}, Calls: []callRec{}, Store: []injDump{}}
 		runLangOnce(rb, c, rec, builts, &second)
+		obs.Second = &second
+	}
+	if c.Reinject {
+		second := lObs{ID: c.ID, Cites: [][2]int{}, Results: map[string]tval{}, Calls: []callRec{}, Store: []injDump{}}
+		var fresh []*built
+		for _, d := range c.Inject {
+			b, err := buildInj(d, rec)
+			if err != nil {
+				second.Compile = "inject: " + err.Error()
+				break
+			}
+			fresh = append(fresh, b)
+			dc.Add(d.Name, b.obj) // no Del in between: the host simply rebinds the name
+		}
+		if second.Compile == "" {
+			runLangOnce(rb, c, rec, fresh, &second)
+		}
 		obs.Second = &second
 	}
 	return obs
